@@ -1687,8 +1687,10 @@ impl<'a> Socket<'a> {
                 // ... and not beyond what has actually been transmitted (SND.MAX): octets (or a
                 // FIN) still waiting in the queue cannot have been received by anyone.
                 let mut sent_max = self.remote_last_seq.max(self.remote_max_seq);
-                if self.timer.is_zero_window_probe() {
-                    // (the octet a zero-window probe carries is not recorded as sent)
+                if self.timer.is_zero_window_probe()
+                    && sent_max - self.local_seq_no < self.tx_buffer.len()
+                {
+                    // (the data octet a zero-window probe carries is not recorded as sent)
                     sent_max += 1;
                 }
                 let ack_max = (self.local_seq_no + unacknowledged).min(sent_max);
